@@ -35,6 +35,10 @@ TEXT = u'''Feature: F
       no placeholder
       """
     Then no placeholder here
+    And total > <a> but -> <b> ok
+      """
+      a > b: <a>
+      """
 
     @ex1
     Examples: First <a>
@@ -231,7 +235,7 @@ def jobs(tier, seed):
 # (a) unbounded strings: the chain of str.replace that render_template performs equals the
 #     reference concatenation for every bracket-free value (cvc5 str.replace_all)
 # ---------------------------------------------------------------------------------------------
-SMT_TEMPLATES = ["Given <a> and <b> then <a>!", "<a><b>", "x<b>y<a>", "no placeholder", "<b><a><b>"]
+SMT_TEMPLATES = ["Given <a> and <b> then <a>!", "<a><b>", "x > <b>", "x<b>y<a>", "no placeholder", "<b><a><b>"]
 
 
 def _smt_str(s):
@@ -257,7 +261,7 @@ def extras(tier, seed):
                 "detail": "marker run of the live ScenarioOutlineBuilder.render_template", "replay_harness": None})
     if not ok:
         return obs
-    templates = SMT_TEMPLATES[:2] if tier == "quick" else SMT_TEMPLATES
+    templates = SMT_TEMPLATES[:3] if tier == "quick" else SMT_TEMPLATES
     for i, t in enumerate(templates):
         cols = ["a", "b"] + (["c"] if "<c>" in t else [])
         decl = "".join("(declare-const %s String)\n(assert (not (str.contains %s \"<\")))\n(assert (not (str.contains %s \">\")))\n" % (c, c, c)
